@@ -132,7 +132,9 @@ class _Strategies:
         self.pre = ['', '', '', ' ', '\t'] * (2 if len(u) == 1 else 3) + [c + ' ' for c in u] + list(u)
         self.tail = ['', '', '', ' ', ' \t'] * (2 if len(u) == 1 else 3) + [' ' + c for c in u] + list(u) + \
                     [' ' + c + ' ' for c in u]
-        self.htail = [''] * 6 + [' '] + [' ' + c for c in u] * 2
+        self.htail = [''] * 4 + [' '] + [' ' + c for c in u] * 2
+        # directly after the name of the instruction (host `file NAME`)
+        self.pre_after_name = ['', ' ', '\t'] + [c + ' ' for c in u] + list(u) + [' ' + c + ' ' for c in u]
 
     def _here_lines(self, marker, u):
         special = [marker + 'X', ' ' + marker, 'X' + marker, marker + marker, '<<' + marker, marker + ' x',
@@ -194,7 +196,7 @@ def cli_case(draw, tier='quick', uws=False):
     u = draw(_uws_some_big if big else _uws_some) if uws else ()
     S = _strategies(u, big)
     lead = draw(st.lists(st.sampled_from(_LEADS), min_size=0, max_size=3, unique=True))
-    pre = draw(st.sampled_from(S.pre))
+    pre = draw(st.sampled_from(S.pre_after_name if host == 'fname' else S.pre))
     tail = draw(st.sampled_from(S.tail))
     htail = draw(st.sampled_from(S.htail))
     if host in STRING_HOSTS:
